@@ -263,3 +263,11 @@ SUBS = [
         enum_shards=lambda tier: 12 if tier == "quick" else 16),
     Sub("embed", check_embed, embed_case(), nontrivial=lambda c: len(c["g"]["n"]) >= 2, quick=250, thorough=1500),
 ]
+
+
+# objects with a history (reads that may fill caches, in-place writes): observables equal those of a fresh object
+from pbt import aged as _aged  # noqa: E402
+
+SUBS.append(_aged.sub("C04", quick=120))
+ASSUMPTIONS = list(ASSUMPTIONS) + ["aged sub-property: library results are a function of the public primary state "
+                                   "(corners, n, names, units, bc, subregions, array, validity, labels, mapping, unit)"]
